@@ -5,6 +5,8 @@ code, dropping the diagnostic, not passing the prepared environment or not impor
 bundled packages breaks one of these theorems.
 -/
 import Anko.Model.Cli
+import Anko.Gen.CliFlow
+import Anko.Props.CliFlowTable
 
 namespace Anko.C18
 open Anko
@@ -52,5 +54,13 @@ theorem verdict_agrees_with_library (s : Supply) (r : ExecRes) (hs : s ≠ .file
 
 example : cli (.file true) .runErr = ⟨4, 1, true⟩ := by decide
 example : cli .dashE .ok = ⟨0, 0, true⟩ := by decide
+
+/-! ### The command-line tool in the source (regenerated: Gen/CliFlow)
+
+Every leaf statement of main, parseFlags, setupEnv, runNonInteractive and runInteractive, with the conditions it stands under, is the one written down in
+Props/CliFlowTable next to Model/Cli (the decision table of Gen/Cli covers the exit codes; this covers how the source text is obtained, which
+arguments the script sees and that nothing is printed on success). Any edit of these functions - also a harmless one - breaks this obligation by name; the check then
+searches model and implementation for a failing input (DESIGN.md 13.3). -/
+theorem command_line_tool_is_the_modelled_one : Gen.CliFlow.leaves = Tables.cliFlow := by decide +kernel
 
 end Anko.C18
